@@ -173,6 +173,7 @@ for _nm, _st in (("play_NoteContainer", 144), ("stop_NoteContainer", 128)):
                  "for i in range(1, len(notecontainer.notes))])" % (_B, _B, _st, _B, _B))],
        modifies=["param:self"], havoc={"self.track_data": "bytes", "self.delta_time": "bytes"},
        split=[{"field_types": {"notecontainer.notes": "[" + ",".join(["Note"] * k) + "]"}} for k in range(0, 5)],
+       split_thorough=[{"field_types": {"notecontainer.notes": "[" + ",".join(["Note"] * k) + "]"}} for k in range(0, 8)],
        split_is_domain=True,
        notes="domain: containers of 0..4 notes with arbitrary names, channels and velocities in MIDI range",
        battery="track_nc")
@@ -236,11 +237,11 @@ _ENTRY_KINDS = ["[real,real,None]", "[real,real,NoteContainer]", "[real,real,Tem
 _NOTES_KINDS = ["[]", "[Note]", "[Note,Note]"]
 
 
-def _bar_shapes():
+def _bar_shapes(thorough=False):
     import itertools
     shapes = [[]]
-    for n in (1, 2, 3):
-        kinds = _ENTRY_KINDS if n < 3 else _ENTRY_KINDS[:2]
+    for n in ((1, 2, 3, 4) if thorough else (1, 2, 3)):
+        kinds = _ENTRY_KINDS if (n < 3 or thorough and n < 4) else _ENTRY_KINDS[:2]
         shapes += [list(c) for c in itertools.product(kinds, repeat=n)]
     return shapes
 
@@ -264,6 +265,7 @@ _c("play_Bar",
                   M + "set_tempo": "set_tempo", M + "play_NoteContainer": "play_NoteContainer",
                   M + "stop_NoteContainer": "stop_NoteContainer"},
    split=[{"field_types": {"bar.bar": "[" + ",".join(sh) + "]"}} for sh in _bar_shapes()],
+   split_thorough=[{"field_types": {"bar.bar": "[" + ",".join(sh) + "]"}} for sh in _bar_shapes(True)],
    split_is_domain=True,
    modifies=["param:self"], havoc={"self.delay": "int"}, battery="track_bar",
    notes="domain: bars of 0..3 entries; each entry a rest, a container, or (first two positions) a container with a "
